@@ -22,7 +22,7 @@ META = {
         "with CRLF tried before CR; the list rule — evaluated as a PEG over abstract line-level words — accepts blank lines, full-line comments and a final line with or without a "
         "line break, and rejects two transactions on one line. R5: every keyword that can follow `money` and could lex as a currency code is excluded by the "
         "currency look-ahead, and no ISO-4217 code is excluded. R6: the consumers are evaluated symbolically on every derivation tree: a tree without a currency node yields a GBP amount, "
-        "a tree without a FEES/TAX node yields zero GBP in fees/tax_paid, a tree with one yields the clause's own value. R7: every CgtError built in the parser module is ParseError. R8: the currency-code consumer folds the case before the ISO look-up."),
+        "a tree without a FEES/TAX node yields zero GBP in fees/tax_paid, a tree with one yields the clause's own value. R7: every CgtError built in the parser module is ParseError. R8: the currency-code consumer folds the case before the ISO look-up. R9: atomic and compound-atomic grammar rules are single lexemes (a keyword and its operand are never inside one atomic rule, so implicit whitespace applies between them). R7 also: a pest error from a child consumer is passed on, not rebuilt on another node."),
     "trusted_base": ["pest semantics of implicit WHITESPACE/COMMENT skipping and silent rules (pest 2.8 generator, read)",
                      "pest_meta parses the grammar exactly as pest_derive does", "syn token structure of match_nodes! arms"],
 }
